@@ -390,12 +390,62 @@ def stub_effects(repo):
     return {"StubEffects.lean": {"changed": changed, "effects": ["%s %s" % e for e in effs]}}
 
 
+def _has_call(node, names):
+    for n in ast.walk(node):
+        if isinstance(n, ast.Call):
+            f = n.func
+            nm = f.id if isinstance(f, ast.Name) else (f.attr if isinstance(f, ast.Attribute) else None)
+            if nm in names:
+                return True
+    return False
+
+
+def default_disciplines(repo):
+    """How each `__setdefault__` hands a mutable default to a new configuration, read off the source:
+    alias (the default object itself), shallow (list()/dict() of it), proxy (a validating proxy built from it: new top level,
+    items through the item field), deep (copy.deepcopy)."""
+    core_mod = _parse(repo, "core.py")
+    fld = _method(_class(core_mod, "Field"), "__setdefault__")
+    out = {"field": "deep" if _has_call(fld, ("deepcopy",)) else "alias"}
+    for modname, cls, proxy, plain, tag in (("fields/list_field.py", "ListField", "ListProxy", "list", "list"),
+                                            ("fields/dict_field.py", "DictField", "DictProxy", "dict", "dict")):
+        m = _method(_class(_parse(repo, modname), cls), "__setdefault__")
+        # a deepcopy that is not nested under the typed/untyped decision covers both branches
+        top_deep = False
+        for st in m.body:
+            if isinstance(st, ast.If):
+                for inner in st.body:
+                    if not isinstance(inner, ast.If) and _has_call(inner, ("deepcopy",)):
+                        top_deep = True
+            elif _has_call(st, ("deepcopy",)):
+                top_deep = True
+        if top_deep:
+            out[tag + "_typed"] = out[tag + "_untyped"] = "deep"
+            continue
+        if not _has_call(m, (proxy,)):
+            raise Unknown("%s.__setdefault__: no %s construction found" % (cls, proxy))
+        out[tag + "_typed"] = "proxy"
+        out[tag + "_untyped"] = "deep" if _has_call(m, ("deepcopy",)) else ("shallow" if _has_call(m, (plain,)) else "alias")
+    return out
+
+
+def defaults_table(repo):
+    t = default_disciplines(repo)
+    lines = ["/- GENERATED by harness/extract.py from /repo on every run — do not edit. -/", "namespace Cinco.Generated", "",
+             "/-- how each `__setdefault__` hands a mutable default to a new configuration (read off the source) -/",
+             "def defaultDisc : List (String × String) := [%s]" % ", ".join("(%s, %s)" % (lstr(k), lstr(v)) for k, v in sorted(t.items())),
+             "", "end Cinco.Generated"]
+    changed = _write("Defaults.lean", "\n".join(lines) + "\n")
+    return {"Defaults.lean": {"changed": changed, "table": t}}
+
+
 def run(repo):
     notes = {}
     notes.update(tables(repo))
     notes.update(overrides(repo))
     notes.update(effects(repo))
     notes.update(stub_effects(repo))
+    notes.update(defaults_table(repo))
     return notes
 
 
